@@ -435,6 +435,9 @@ def judge(st, pre, op, res, snapline, wfline, S, W, pre_lines=(), tag=""):
         g = (b3[l] == 0) == (b3[r] == 0)
         if "MS" in cls:
             S[("MS", kind, ("G" if g else "notG") + (" -> Sided" if pp["sided"] else " -> NOT Sided"))] += 1
+            if not g:
+                S[("MS", kind, ("only l 3-linked" if b3[l] else "only r 3-linked")
+                   + (" -> Sided" if pp["sided"] else " -> NOT Sided"))] += 1
         if "MN~S" in cls and not pp["nsg"]:
             S[("MN~S", kind, "breaks NoSelfGlue with " + ("G" if g else "notG"))] += 1
             if g:
@@ -947,7 +950,9 @@ def table_a(S):
     print("\n    1-link / 1-sew from MS maps, by G(l,r) := (b3 l = 0 <-> b3 r = 0):")
     for k in ("link1", "sew1"):
         print(f"    {k}: " + ", ".join(f"{e}: {S[('MS', k, e)]}" for e in
-                                       ("G -> Sided", "G -> NOT Sided", "notG -> Sided", "notG -> NOT Sided")))
+                                       ("G -> Sided", "G -> NOT Sided", "notG -> Sided", "notG -> NOT Sided",
+                                        "only l 3-linked -> Sided", "only l 3-linked -> NOT Sided",
+                                        "only r 3-linked -> Sided", "only r 3-linked -> NOT Sided")))
     for k in ("link1", "sew1"):
         print(f"    {k} from WF&Mirror&NoSelfGlue&~Sided maps breaking NoSelfGlue: with G "
               f"{S[('MN~S', k, 'breaks NoSelfGlue with G')]}, with notG {S[('MN~S', k, 'breaks NoSelfGlue with notG')]}")
